@@ -1772,6 +1772,13 @@ class PGPKey(Armorable, ParentRef, PGPObject):
             return
 
         for sk in itertools.chain([self], self.subkeys.values()):
+            if sk._key.protected and not sk._key.unlocked:
+                # a component that is still locked (it has a passphrase of its own) keeps the protection it has:
+                # its secret values are not available, encrypting what is there would destroy them
+                warnings.warn("Key {:s} is protected with a passphrase and locked - it keeps its present "
+                              "protection".format(sk.fingerprint.keyid), stacklevel=2)
+                continue
+
             sk._key.protect(passphrase, enc_alg, hash_alg)
 
         del passphrase
